@@ -33,7 +33,7 @@ func notEvaluated(keys []string) bool {
 }
 
 func runC03(c *ctx, r *Report) error {
-	r.Rule = "three hand-written workflows that lint clean and together use every section and key of the workflow syntax (all events with filters and inputs/secrets/outputs, permissions, env, defaults, concurrency, every job key incl. strategy.matrix with include/exclude, container and services with credentials/env/ports/volumes/options, environment, runs-on group/labels, reusable-workflow calls, every step key incl. docker entrypoint/args); for EVERY scalar that is a mapping value or sequence element, the YAML tree is rewritten with that scalar replaced by a malformed placeholder (4 shapes), re-emitted and linted by the real linter: a diagnostic must sit on that scalar, and be an [expression] syntax error wherever the value is an expression template; the same again with the key/value pair moved to every other position of its mapping (sibling order); non-trivial = distinct (file, key path, placeholder) mutations"
+	r.Rule = "three hand-written workflows that lint clean and together use every section and key of the workflow syntax (all events with filters and inputs/secrets/outputs, permissions, env, defaults, concurrency, every job key incl. strategy.matrix with include/exclude, container and services with credentials/env/ports/volumes/options, environment, runs-on group/labels, reusable-workflow calls, every step key incl. docker entrypoint/args); for EVERY scalar that is a mapping value or sequence element, the YAML tree is rewritten with that scalar replaced by a malformed placeholder (4 shapes), re-emitted and linted by the real linter: a diagnostic must sit on that scalar, and be an [expression] syntax error wherever the value is an expression template; the same again with the key/value pair moved to every other position of its mapping (sibling order), with each sibling key left out, and with no sibling at all (where the workflow stays clean); non-trivial = distinct (file, key path, placeholder) mutations"
 	type miss struct{ key, desc string }
 	sitesTotal, sitesEvaluated := 0, 0
 	names := []string{"a.yml", "b.yml", "c.yml"}
@@ -102,14 +102,28 @@ func runC03(c *ctx, r *Report) error {
 			type variant struct {
 				pos  int // target pair index, -1 = as written
 				path ypath
+				drop int // pair index of a sibling that is left out (-1 = none, -2 = all siblings)
 			}
-			variants := []variant{{-1, v.path}}
+			variants := []variant{{-1, v.path, -1}}
 			if par := nodeAt(root, v.path[:len(v.path)-1]); par != nil && par.Kind == yaml.MappingNode && len(par.Content) > 2 {
+				own := v.path[len(v.path)-1]
 				for k := 0; k < len(par.Content)/2; k++ {
-					if 2*k+1 != v.path[len(v.path)-1] {
-						variants = append(variants, variant{k, append(append(ypath{}, v.path[:len(v.path)-1]...), 2*k+1)})
+					if 2*k+1 != own {
+						variants = append(variants, variant{k, append(append(ypath{}, v.path[:len(v.path)-1]...), 2*k+1), -1})
 					}
 				}
+				// … and with each sibling key left out, and with no sibling at all (a check that is skipped unless some
+				// OTHER key is present stays invisible while every key is there)
+				for k := 0; k < len(par.Content)/2; k++ {
+					if 2*k+1 != own {
+						idx := own
+						if 2*k+1 < own {
+							idx -= 2
+						}
+						variants = append(variants, variant{-1, append(append(ypath{}, v.path[:len(v.path)-1]...), idx), k})
+					}
+				}
+				variants = append(variants, variant{-1, append(append(ypath{}, v.path[:len(v.path)-1]...), 1), -2})
 			}
 			for vi, va := range variants {
 				for bi, bad := range badPlaceholders {
@@ -120,6 +134,25 @@ func runC03(c *ctx, r *Report) error {
 						continue
 					}
 					m := cloneNode(root)
+					if va.drop != -1 {
+						par := nodeAt(m, v.path[:len(v.path)-1])
+						i := v.path[len(v.path)-1]
+						if va.drop == -2 {
+							par.Content = []*yaml.Node{par.Content[i-1], par.Content[i]}
+						} else {
+							par.Content = append(append([]*yaml.Node{}, par.Content[:2*va.drop]...), par.Content[2*va.drop+2:]...)
+						}
+						if bi == 0 {
+							// premise: the workflow without that sibling is still clean
+							if csrc, err := emitYAML(m); err != nil {
+								return err
+							} else if cerrs, cerr := lintSrc(name, csrc); cerr != nil || len(cerrs) > 0 {
+								r.hist("sibling-dropped-base-not-clean")
+								break
+							}
+							r.hist("sibling-dropped")
+						}
+					}
 					if va.pos >= 0 {
 						par := nodeAt(m, v.path[:len(v.path)-1])
 						i := v.path[len(v.path)-1]
@@ -158,7 +191,7 @@ func runC03(c *ctx, r *Report) error {
 					}
 					errs, lerr := lintSrc(name, src)
 					r.Evaluations++
-					r.nontrivial(fmt.Sprintf("%s:%s:%s:%d", name, strings.Join(v.keys, "."), bad, va.pos))
+					r.nontrivial(fmt.Sprintf("%s:%s:%s:%d:%d", name, strings.Join(v.keys, "."), bad, va.pos, va.drop))
 					if va.pos >= 0 {
 						r.hist("reordered")
 					}
